@@ -174,6 +174,13 @@ def run_op(op, sc, pps, r, d):
         for o in sc.obstacles:
             o == o
         sc.lanelet_network == sc.lanelet_network
+        # comparisons with distinct but equal objects (identity short-cuts do not apply) and with different ones
+        other, other_pps = build(r)
+        sc == other, other == sc, pps == other_pps, sc != other
+        for a, b in zip(sc.obstacles, other.obstacles):
+            a == b
+        for a, b in zip(sc.obstacles, reversed(other.obstacles)):
+            a == b
     elif op == "hash":
         for x in list(sc.obstacles) + list(sc.lanelet_network.lanelets) + [sc.lanelet_network, sc, pps]:
             try:
